@@ -44,16 +44,19 @@ def check(tier):
             D.setdefault(f[1], []).append(f[2] + "/" + ("" if f[3] == "-" else f[3]))
     results = []
     sols = [s for s in D if s not in ("masa_test_function", "masa_uninit")]
-    per = max(5.0, (p_e2.DEADLINE[tier] - 60) / max(1, len(sols)))
-    for s in sols:
+    per = 90.0 if tier == "quick" else 900.0
+    import concurrent.futures
+
+    def one(s):
         ev = D[s]
-        # representative subset: prefer sources, spread over the list
         pick = ev[:: max(1, len(ev) // (6 if tier == "thorough" else 3))][: (6 if tier == "thorough" else 3)]
-        cmd_extra = ",".join(pick)
-        res = run_c10_space(exe, b, tier, s, cmd_extra, per)
-        p_e2.add_violations(rep, res, "C10")
-        p_e2.eval_consistency(rep, res)
-        results.append(res)
+        return run_c10_space(exe, b, tier, s, ",".join(pick), per)
+
+    with concurrent.futures.ThreadPoolExecutor(4) as ex:
+        for res in ex.map(one, sols):
+            p_e2.add_violations(rep, res, "C10")
+            p_e2.eval_consistency(rep, res)
+            results.append(res)
     p_e2.cover(rep, results, "; per solution: handles A,B (same type) and C (another type), double and long double registries, select/set_param/set_vec on any handle interleaved with evaluator calls; every evaluator value must be bit-identical for the same (solution, assignment) whatever the history or handle")
     rep.coverage["states"] += hstates; rep.coverage["transitions"] += htrans; rep.coverage["traces_validated_against_impl"] += htrans
     rep.coverage["hidden_state_closures"] = len(closures)
@@ -65,10 +68,10 @@ def check(tier):
 
 
 def run_c10_space(exe, b, tier, sol, evals, deadline):
-    out = os.path.join(b.dir, "c10.out")
+    out = os.path.join(b.dir, "c10_%s.out" % sol)
     if os.path.exists(out):
         os.unlink(out)
-    cmd = [exe, "--space", "c10", "--tier", tier, "--out", out, "--jobs", str(vbuild.NCPU), "--deadline", str(deadline), "--solution", sol, "--evals", evals]
+    cmd = [exe, "--space", "c10", "--tier", tier, "--out", out, "--jobs", str(max(2, vbuild.NCPU // 4)), "--deadline", str(deadline), "--solution", sol, "--evals", evals]
     r = subprocess.run(cmd, stdout=subprocess.PIPE, stderr=subprocess.STDOUT, text=True)
     if r.returncode != 0:
         sys.stderr.write("E2 c10 failed for %s rc=%d\n%s\n" % (sol, r.returncode, r.stdout[-2000:])); raise SystemExit(2)
